@@ -1,4 +1,4 @@
-//! C12: record text, events with spans, errors (position + words of the printed form) and the
+//! C12: record text, events with spans, errors (position + the numbers in the printed form) and the
 //! spans of marked nodes in pre-order, for Trace_Pos.
 use crate::{out_file, read_pool, Args};
 use saphyr::{LoadableYamlNode, MarkedYaml, MarkedYamlOwned, YamlData, YamlDataOwned};
@@ -32,7 +32,7 @@ fn pre_mo(n: &MarkedYamlOwned, out: &mut Vec<Value>) {
 fn rec(t: &str, r: &Run, be: &str, marked: Vec<Value>) -> Value {
     json!({"k": "POS", "t": chars(t), "be": be,
         "evs": r.evs.iter().map(|e| json!({"k": e.k, "a": e.a, "b": e.b, "v": chars(&e.v), "style": e.style, "aid": e.aid})).collect::<Vec<_>>(),
-        "err": r.err.iter().map(|e| json!({"at": e.at, "words": e.display.split_whitespace().collect::<Vec<_>>()})).collect::<Vec<_>>(),
+        "err": r.err.iter().map(|e| json!({"at": e.at, "words": e.display.split(|c: char| !c.is_ascii_digit()).filter(|w| !w.is_empty()).collect::<Vec<_>>()})).collect::<Vec<_>>(),
         "marked": marked})
 }
 
